@@ -136,8 +136,11 @@ def main(a):
         return evaluate(a[1], rest, tier)
     if a[0] == "evalall":
         tier = a[1] if len(a) > 1 else "quick"
+        only = a[2] if len(a) > 2 else ""
         root = os.path.join(VERIF, "seeded")
         for d in sorted(os.listdir(root)):
+            if only and only not in d:
+                continue
             if os.path.exists(os.path.join(root, d, "patch.diff")):
                 evaluate(os.path.join(root, d), [], tier)
         return 0
